@@ -2,7 +2,7 @@
    extraction and for vm_compute cross-checks. *)
 From Coq Require Import ZArith List Bool Arith Lia.
 From Coq Require Import QArith.
-From RV Require Import Val Syntax Rho Offline Online Sat IA Pastify Jitter Units Support Lexer Parser Elab Dense DenseSem DenseMerge Explain ExtZ.
+From RV Require Import Val Syntax Rho Offline Online Sat IA Pastify Jitter Units Support Lexer Parser Elab Dense DenseSem DenseMerge DenseSat Explain ExtZ.
 Import ListNotations.
 
 Definition zformula := @formula ExtZVal.
@@ -68,6 +68,11 @@ Definition run_isect (op : nat) (s1 s2 : list (Z * extz)) : option (list (Z * ex
 (* explain() on a list of assertions: the table of intervals per input variable *)
 Definition run_explain (ps : list zformula) (w : ztrace) (n : nat) : option (list (nat * list (nat * nat))) :=
   explain ExtZArith pk_std w n ps.
+
+(* Boolean dense-time semantics at every tick of [t0, tend] *)
+Definition run_satz (p : zformula) (W : list (list (Z * extz))) (t0 tend : Z) : list bool :=
+  map (satZ ExtZArith W tend p) (zrange t0 tend).
+Definition run_dbool (p : zformula) : bool := dbool p.
 
 Definition run_hor (p : zformula) : nat := hor p.
 Definition run_bounded_future (p : zformula) : bool := bounded_future p.
